@@ -15,7 +15,7 @@ from .extract import DROPPED
 
 MANIFEST_OBL = os.path.join(VERIF, "contracts", "obligations.json")
 KNOWN = os.path.join(VERIF, "known_findings.json")
-TOP_KINDS = ("ensures", "raises", "on_raise", "lemma", "frame", "loop-init", "loop-step", "termination")
+TOP_KINDS = ("ensures", "raises", "on_raise", "lemma", "frame", "loop-init", "loop-step", "termination", "assert", "sink")
 
 
 def load_known():
@@ -185,14 +185,14 @@ def check_property(prop, tier, repo, record=False, verbose=False):
     # --- verdict ------------------------------------------------------------------------
     for l in lines:
         print(l)
-    if problems:
-        for p in problems:
-            print("CHECKER-ERROR property=%s %s" % (prop, p))
-        return 3
     if vio_lines:
         for l in vio_lines:
             print(l)
         return 1
+    if problems:
+        for p in problems:
+            print("CHECKER-ERROR property=%s %s" % (prop, p))
+        return 3
     if undecided or rep["undecided"] or missing:
         for o in undecided:
             if not isinstance(o, dict):
